@@ -133,7 +133,10 @@ func runOne(t *testing.T, sc scenario, c *mc.Chooser) (out mc.Outcome) {
 	res := bubble.Run(t, func() {
 		gates := bubble.NewGates(
 			"http2.capture.settings", "http2.capture.headers", "http2.capture.headersPriority", "http2.capture.windowUpdate", "http2.capture.priority",
-			"metadata.Marshal.settings", "metadata.Marshal.windowUpdate", "metadata.Marshal.priorities", "metadata.Marshal.headers")
+			"metadata.Marshal.settings", "metadata.Marshal.windowUpdate", "metadata.Marshal.priorities", "metadata.Marshal.headers",
+			"vsync.Unlock")
+		// a handler can also be parked right after it has left the frames lock (before it uses what it read)
+		gates.Filter = func(site, who string) bool { return site != "vsync.Unlock" || strings.HasPrefix(who, "h") }
 		defer gates.Uninstall()
 		param := &fp.HTTP2FingerprintParam{MaxPriorityFrames: ^uint(0)}
 		inj := fp.NewFingerprintHeaderInjector("X-HTTP2-Fingerprint", param.HTTP2Fingerprint)
